@@ -1142,6 +1142,7 @@ impl InstrFormat for OldeEclHooks {
     }
 
     fn write_instr(&self, f: &mut BinWriter, emitter: &dyn Emitter, instr: &RawInstr) -> WriteResult {
+        crate::llir::forbid_terminal_opcode(emitter, instr.opcode)?;
         f.write_i32(instr.time)?;
         f.write_u16(instr.opcode)?;
         f.write_i16(crate::llir::instr_header_field(emitter, "instruction size", self.instr_size(instr) as i64)?)?;
